@@ -1,10 +1,16 @@
 import FimVerif.Drivers.Proto
-import FimVerif.Model.Cbm
+import FimVerif.Model.CbmStore
+import FimVerif.Generated.CbmCfg
 open Lean FimVerif.Proto FimVerif.Cbm
 
 /-! Line-protocol driver for the CBM model.
 Requests: `["reset"]`, `["merge", spec, order]`, `["unmerge", gid]`, `["snapshot"]`, `["rollback", k]`.
-Reply: `["ok", {"r": "ok" | error kind, "cbm": graph, "val": snapshot index | null}]`. -/
+Reply: `["ok", {"r": "ok" | error kind, "cbm": graph, "val": snapshot index | null, "agree": bool, "src": bool}]`.
+
+Every request is executed twice: by the interpreter of the *generated* plans on the model of the shared store
+(`Model/CbmStore.lean`; this is what is reported and compared with the implementation) and by the abstract model the theorems
+are about (`Model/Cbm.lean`); `agree` says that both raise the same and that the store's view of the combined model is the
+abstract model's graph; `src` that the store's view of the merged source model is still the model that was sent. -/
 
 def getProps (j : Json) : Option Props :=
   match j with
@@ -56,33 +62,50 @@ def ofGraph (g : Graph) : Json :=
         Json.arr #[.str n.id, ofProps n.props, ofStrs n.prov, ofDeleg n.ldel, ofDeleg n.cdel]).toArray),
     ("edges", Json.arr (g.edges.map fun e => Json.arr #[.str e.a, .str e.b, ofProps e.props]).toArray)]
 
-def reply (e : Option Err) (w : World) (val : Json := .null) : World × Json :=
-  (w, ok (Json.mkObj [("r", .str (match e with | none => "ok" | some e => e.kind)), ("cbm", ofGraph w.cbm), ("val", val)]))
+structure St where
+  w : World
+  s : Store
+  tmp : Nat
 
-def sameMembers (x y : List String) : Bool :=
-  x.length == y.length && x.all y.contains && y.all x.contains
+def cbmId : String := "CBM"
+def tmpId (n : Nat) : String := "\u0001tmp-" ++ toString n
+def snapId (k : Nat) : String := "\u0001snap-" ++ toString k
+def P : Plans := FimVerif.Gen.CbmCfg.plans
 
-def handle (w : World) (j : Json) : World × Json :=
+def reply (st : St) (e a : Option Err) (srcOk : Bool) (val : Json := .null) : St × Json :=
+  let v := st.s.view cbmId
+  (st, ok (Json.mkObj [("r", .str (match e with | none => "ok" | some e => e.kind)), ("cbm", ofGraph v), ("val", val),
+                        ("agree", .bool (e == a && v.sameAs st.w.cbm)), ("src", .bool srcOk)]))
+
+def handle (st : St) (j : Json) : St × Json :=
   match j with
-  | .arr #[.str "reset"] => reply none (World.init [])
+  | .arr #[.str "reset"] => reply ⟨World.init [], Store.empty, 0⟩ none none true
   | .arr #[.str "merge", spec, ord] =>
     match getAdm spec, getStrs ord with
     | some a, some order =>
+      -- the source model lies in the store next to the combined model (put there by the harness' session)
+      let s0 := if (st.s.view a.id).sameAs a.g then st.s else st.s.load a
+      let r := s0.mergeAdm P ⟨cbmId, tmpId st.tmp, a.id⟩ order
       -- the order is only meaningful when the common-node loop is reached
-      let order := if sameMembers order (common w.cbm a.g) then order else common w.cbm a.g
-      let r := mergeOrd w.cbm a order
-      reply r.1 { w with cbm := r.2 }
-    | _, _ => (w, err "bad-args")
+      let order' := if sameMembers order (common st.w.cbm a.g) then order else common st.w.cbm a.g
+      let ra := mergeOrd st.w.cbm a order'
+      reply ⟨{ st.w with cbm := ra.2 }, r.2, st.tmp + 1⟩ r.1 ra.1 ((r.2.view a.id).sameAs a.g)
+    | _, _ => (st, err "bad-args")
   | .arr #[.str "unmerge", .str gid] =>
-    let r := unmerge w.cbm gid
-    reply r.1 { w with cbm := r.2 }
+    let r := st.s.unmergeAdm P cbmId gid
+    let ra := unmerge st.w.cbm gid
+    reply ⟨{ st.w with cbm := ra.2 }, r.2, st.tmp⟩ r.1 ra.1 true
   | .arr #[.str "snapshot"] =>
-    let r := snapshot w
-    reply r.1 r.2 (match r.1 with | none => Json.num (JsonNumber.fromNat w.next) | some _ => .null)
+    let r := execM ⟨cbmId, snapId st.w.next, cbmId⟩ [] st.s P.snapshot
+    let ra := snapshot st.w
+    reply ⟨ra.2, r.2, st.tmp⟩ r.1 ra.1 true (match r.1 with | none => Json.num (JsonNumber.fromNat st.w.next) | some _ => .null)
   | .arr #[.str "rollback", k] =>
     match k.getNat? with
-    | .ok k => let r := rollback w k; reply r.1 r.2
-    | .error _ => (w, err "bad-args")
-  | _ => (w, err "bad-request")
+    | .ok k =>
+      let r := execR ⟨cbmId, snapId k, cbmId⟩ st.s P.rollback
+      let ra := rollback st.w k
+      reply ⟨ra.2, r.2, st.tmp⟩ r.1 ra.1 true
+    | .error _ => (st, err "bad-args")
+  | _ => (st, err "bad-request")
 
-def main : IO Unit := runState (World.init []) handle
+def main : IO Unit := runState (⟨World.init [], Store.empty, 0⟩ : St) handle
